@@ -43,6 +43,7 @@ func runC01(c *Ctx) {
 	rulePagesOnlyGrow(c, "C01.21")
 	ruleRootCarriedThroughLoop(c, "C01.22")
 	c11ParentUpdate(c, "C01.23")
+	c04FlushOrder(c, "C01.24")
 	c.Rule("C01.15", "rows read back are the rows stored: the row codec is symmetric per column type and its length prefixes are byte lengths (C08.4)")
 	checkCodecPair(c, "C01.15", "storage.(*Tuple).Encode", "storage.(*Tuple).Decode")
 	ruleFlushLoopComplete(c, "C01.16")
